@@ -10,6 +10,7 @@ package pcapgo
 import (
 	"bytes"
 	"fmt"
+	"io"
 	"net/netip"
 )
 
@@ -47,7 +48,7 @@ func newHWAddress(data []byte) *NgEUIAddress {
 
 func (r *NgReader) readIPAddr(nr *NgNameRecord, length int) error {
 	if _, err := r.readBytes(r.buf[:length]); err != nil {
-		return fmt.Errorf("could not read IP address: %v", err)
+		return fmt.Errorf("could not read IP address: %w", err)
 	}
 	nr.Addr = newIPAddress(r.buf[:length])
 	return nil
@@ -55,7 +56,7 @@ func (r *NgReader) readIPAddr(nr *NgNameRecord, length int) error {
 
 func (r *NgReader) readHWAddr(nr *NgNameRecord, length int) error {
 	if _, err := r.readBytes(r.buf[:length]); err != nil {
-		return fmt.Errorf("could not read EUI address: %v", err)
+		return fmt.Errorf("could not read EUI address: %w", err)
 	}
 	nr.Addr = newHWAddress(r.buf[:])
 	return nil
@@ -66,7 +67,7 @@ func (r *NgReader) readNameResolutionBlock() error {
 	for r.currentBlock.length > 0 {
 		// Read name record header
 		if _, err := r.readBytes(r.buf[:4]); err != nil {
-			return fmt.Errorf("could not read NameRecord Header block length: %v", err)
+			return fmt.Errorf("could not read NameRecord Header block length: %w", err)
 		}
 		r.currentBlock.length -= 4
 
@@ -81,26 +82,26 @@ func (r *NgReader) readNameResolutionBlock() error {
 		switch nrh.recordType {
 		case ngNameRecordIPv4:
 			if err := r.readIPAddr(&nameRecord, 4); err != nil {
-				return fmt.Errorf("could not read IPv4 address: %v", err)
+				return fmt.Errorf("could not read IPv4 address: %w", err)
 			}
 		case ngNameRecordIPv6:
 			if err := r.readIPAddr(&nameRecord, 16); err != nil {
-				return fmt.Errorf("could not read IPv6 address: %v", err)
+				return fmt.Errorf("could not read IPv6 address: %w", err)
 			}
 		case ngNameRecordEUI48:
 			if err := r.readHWAddr(&nameRecord, 6); err != nil {
-				return fmt.Errorf("could not read EUI-48 address: %v", err)
+				return fmt.Errorf("could not read EUI-48 address: %w", err)
 			}
 		case ngNameRecordEUI64:
 			if err := r.readHWAddr(&nameRecord, 8); err != nil {
-				return fmt.Errorf("could not read EUI-64 address: %v", err)
+				return fmt.Errorf("could not read EUI-64 address: %w", err)
 			}
 		case ngNameRecordEnd:
 			goto DONE
 		default:
 			// discard record length
 			if err := r.discard(length + padding); err != nil {
-				return fmt.Errorf("could not discard unknown name record: %v", err)
+				return fmt.Errorf("could not discard unknown name record: %w", err)
 			}
 			continue
 		}
@@ -110,7 +111,10 @@ func (r *NgReader) readNameResolutionBlock() error {
 		for length > 0 {
 			bstr, err := r.r.ReadBytes(0)
 			if err != nil {
-				return fmt.Errorf("could not read name: %v", err)
+				if err == io.EOF {
+					err = io.ErrUnexpectedEOF
+				}
+				return fmt.Errorf("could not read name: %w", err)
 			}
 			length -= len(bstr)
 			name := string(bytes.Trim(bstr, "\x00"))
